@@ -684,6 +684,9 @@ fn state_causes(ex: &Exec, xcopy_done: bool) -> Vec<&'static str> {
         if !c.contains(&"adjacent-text-items") && has_adjacent_text(m) {
             c.push("adjacent-text-items");
         }
+        if !c.contains(&"item-name-over-length") && m.elements_dfs().any(|(_, e)| item_name_over_length(&e)) {
+            c.push("item-name-over-length");
+        }
         if !c.contains(&"short-name-not-first") && m.elements_dfs().any(|(_, e)| short_name_not_first(&e)) {
             c.push("short-name-not-first");
         }
@@ -713,6 +716,18 @@ pub fn short_name_not_first(e: &Element) -> bool {
         return false;
     }
     !matches!(e.content().next(), Some(ElementContent::Element(s)) if s.element_name() == ElementName::ShortName)
+}
+
+/// an identifiable element whose item name is longer than the SHORT-NAME specification allows (the setters refuse such a
+/// name; make_unique_item_name appends `_<n>` without looking at the limit)
+pub fn item_name_over_length(e: &Element) -> bool {
+    use autosar_data_specification::CharacterDataSpec as S;
+    let Some(name) = e.item_name() else { return false };
+    let Some(sn) = e.get_sub_element(ElementName::ShortName) else { return false };
+    match sn.element_type().chardata_spec() {
+        Some(S::Pattern { max_length: Some(m), .. }) | Some(S::String { max_length: Some(m), .. }) => name.len() > *m,
+        _ => false,
+    }
 }
 
 /// duplicate AUTOSAR paths, computed from the tree
@@ -1229,6 +1244,9 @@ pub fn xattach_main(args: &[String]) {
                             if !out.is_empty() && has_duplicate_path(&_mb) {
                                 out.push("cause:duplicate-path".to_string());
                             }
+                            if !out.is_empty() && _mb.elements_dfs().any(|(_, x)| item_name_over_length(&x)) {
+                                out.push("cause:item-name-over-length".to_string());
+                            }
                             Ok((out, stored))
                         });
                         let head = format!("kind={} v={} name={} p1=({},{}) c1=({},{}) p2=({},{}) c2=({},{})", kind, v, n16, p1.0, p1.1, c1.0, c1.1, p2.0, p2.1, c2.0, c2.1);
@@ -1494,6 +1512,9 @@ pub fn xver_main(args: &[String]) {
                                             }
                                             if mb.elements_dfs().any(|(_, x)| short_name_not_first(&x)) {
                                                 out.push("cause:short-name-not-first".to_string());
+                                            }
+                                            if mb.elements_dfs().any(|(_, x)| item_name_over_length(&x)) {
+                                                out.push("cause:item-name-over-length".to_string());
                                             }
                                         }
                                         return Ok((out, level));
